@@ -224,11 +224,20 @@ Theorem c06_unsafe_prefix_gap :
   oct_import_warns [48; 130; 1; 34; 48; 13; 6; 9] = false.
 Proof. exact unsafe_prefix_gap. Qed.
 
-(* key_ops given as a JSON string (accepted by key import) is matched by substring
-   (candidate, reported) *)
-Theorem c06_key_ops_string_gap :
-  exists k, k_ops k = Some (PStr (asc "unwrapKey")) /\ check_key_op "wrapKey" k = Ok tt.
-Proof. exact key_ops_string_gap. Qed.
+(* what key_wf assumes about declared use / key_ops is what the registry of /repo
+   validates at import: "use" a single member of [sig; enc] (not a list), "key_ops" a
+   list of operation names (not a string, which `in` would match by substring) *)
+Theorem c06_table_key_params :
+  kparam_kind "use" = Some (VChoiceStr ["sig"; "enc"]) /\
+  kparam_kind "key_ops" =
+    Some (VChoiceList ["sign"; "verify"; "encrypt"; "decrypt"; "wrapKey"; "unwrapKey";
+                       "deriveKey"; "deriveBits"]).
+Proof. exact key_params_table. Qed.
+
+(* hence for every importable key the key_ops gate is list membership *)
+Theorem c06_key_ops_membership :
+  forall op k, key_wf k -> check_key_op op k = Ok tt -> ops_include op k.
+Proof. exact key_ops_membership. Qed.
 
 (* ---------- non-vacuity: instances that meet the hypotheses ---------- *)
 Example c06_jws_instances :
@@ -313,4 +322,5 @@ Print Assumptions c06_table_operations.
 Print Assumptions c06_table_curves.
 Print Assumptions c06_unsafe_import.
 Print Assumptions c06_unsafe_prefix_gap.
-Print Assumptions c06_key_ops_string_gap.
+Print Assumptions c06_table_key_params.
+Print Assumptions c06_key_ops_membership.
